@@ -88,13 +88,13 @@ CLAIMED["C14"] = dict(
     ref="6/C14, 10.3")
 
 CLAIMED["C09"] = dict(
-    text="Proof for the algebraic clauses (RING, T = unsigned): Matrix44/Matrix33 setTranslation, setScale (vector and scalar), setShear send a row-vector point to p+t, to p scaled per axis, to the documented shear, translation() returns the translation row; the in-place translate, scale, shear (Vec3/Vec2, Shear6 and scalar overloads) equal the corresponding set* matrix multiplied on the LEFT of the current matrix for ARBITRARY (also non-affine) current matrices - the fourth row/column terms the tests never exercise. Rotations with cos and sin uninterpreted (the clauses are polynomial identities in the cos/sin values): Matrix44::setEulerAngles(r) == Rx(r.x) Ry(r.y) Rz(r.z), the product of the elementary row-vector rotations; Matrix44::rotate(r) == setEulerAngles(r) x M; Matrix33/Matrix22::setRotation == [[c,s],[-s,c]]; Matrix33/22::rotate(r) == M x setRotation(r).",
-    note="Trusted: clang AST + cxx2c (differentially validated), cbmc SMT generation, z3-new som. RING -> float transfer as for C05 (same template; classical rounding bound not machine-checked). Not covered: orthonormality / determinant +1 (needs c^2+s^2=1), setAxisAngle (normalisation), Matrix22 scale, the frame builders.",
+    text="Proof for the algebraic clauses (RING, T = unsigned): Matrix44/Matrix33 setTranslation, setScale (vector and scalar), setShear send a row-vector point to p+t, to p scaled per axis, to the documented shear, translation() returns the translation row; the in-place translate, scale, shear (Vec3/Vec2, Shear6 and scalar overloads) equal the corresponding set* matrix multiplied on the LEFT of the current matrix for ARBITRARY (also non-affine) current matrices - the fourth row/column terms the tests never exercise. Rotations with cos and sin uninterpreted (the clauses are polynomial identities in the cos/sin values): Matrix44::setEulerAngles(r) == Rx(r.x) Ry(r.y) Rz(r.z), the product of the elementary row-vector rotations; Matrix44::rotate(r) == setEulerAngles(r) x M; Matrix33/Matrix22::setRotation == [[c,s],[-s,c]]; Matrix33/22::rotate(r) == M x setRotation(r). Matrix22 setScale (scalar, Vec2) == diag(s), scale(s) == setScale(s) x M.",
+    note="Trusted: clang AST + cxx2c (differentially validated), cbmc SMT generation, z3-new som. RING -> float transfer as for C05 (same template; classical rounding bound not machine-checked). Not covered: orthonormality / determinant +1 (needs c^2+s^2=1), setAxisAngle (normalisation), the frame builders.",
     technique="polynomial identities over Z/2^32 on the extracted unsigned instantiation (cbmc --z3 --outfile + z3 sum-of-monomials)",
     ref="6/C09, 10.3")
 CLAIMED["C10"] = dict(
-    text="Proof for the algebraic clauses, homogenised so that each identity holds for EVERY quaternion and specialises to the property at unit norm N = q.q = 1 (RING, T = unsigned): v*q == v*q.toMatrix33(); q.rotateVector(v) == v*q + (N-1)v; toMatrix33 and toMatrix44 hold the same block with an affine border; with K(q) = M(q) + (N-1)I, K(q1*q2) == K(q2)*K(q1) (quaternion multiplication is multiplication of the rotation matrices, row-vector convention); ~q negates the vector part only and q * ~q == (N,0,0,0). Interpolation family (Quat<float>, arithmetic and libm uninterpreted): slerpShortestArc == slerp towards the representative of q2 with non-negative dot product (never the long way round); squad == slerp(slerp(q1,q2,t), slerp(qa,qb,t), 2t(1-t)); intermediate == normalized(q1 * exp(-1/4 (log(q1^-1 q0) + log(q1^-1 q2)))) with that operand order; spline == squad(q1, intermediate(q0,q1,q2), intermediate(q1,q2,q3), q2, t) (checked modularly against pure-function interfaces of its callees).",
-    note="Trusted: clang AST + cxx2c, cbmc, z3-new som. Not covered: exp/log, axis/angle, extractQuat, setRotation(from,to), slerp family, Quat vs Matrix44 setAxisAngle (transcendental functions, normalisation), q*inverse(q) (division).",
+    text="Proof for the algebraic clauses, homogenised so that each identity holds for EVERY quaternion and specialises to the property at unit norm N = q.q = 1 (RING, T = unsigned): v*q == v*q.toMatrix33(); q.rotateVector(v) == v*q + (N-1)v; toMatrix33 and toMatrix44 hold the same block with an affine border; with K(q) = M(q) + (N-1)I, K(q1*q2) == K(q2)*K(q1) (quaternion multiplication is multiplication of the rotation matrices, row-vector convention); ~q negates the vector part only and q * ~q == (N,0,0,0). Interpolation family (Quat<float>, arithmetic and libm uninterpreted): slerpShortestArc == slerp towards the representative of q2 with non-negative dot product (never the long way round); squad == slerp(slerp(q1,q2,t), slerp(qa,qb,t), 2t(1-t)); intermediate == normalized(q1 * exp(-1/4 (log(q1^-1 q0) + log(q1^-1 q2)))) with that operand order; spline == squad(q1, intermediate(q0,q1,q2), intermediate(q1,q2,q3), q2, t) (checked modularly against pure-function interfaces of its callees). RETYPE (float text over Z/2^32, a/b = a*inv(b)): inverse(q) == conjugate(q)/(q^q) and q * inverse(q) == inverse(q) * q == (N inv(N), 0, 0, 0), the identity for q != 0.",
+    note="Trusted: clang AST + cxx2c, cbmc, z3-new som. Not covered: exp/log, axis/angle, extractQuat, setRotation(from,to), slerp values, Quat vs Matrix44 setAxisAngle (transcendental functions, normalisation).",
     technique="polynomial identities over Z/2^32 on the extracted unsigned instantiation (cbmc --z3 --outfile + z3 sum-of-monomials)",
     ref="6/C10, 10.3")
 
